@@ -8,6 +8,7 @@ import (
 	"errors"
 	"fmt"
 	"github.com/ozontech/seq-db/logger"
+	"regexp"
 	"sort"
 	"testing"
 	"time"
@@ -16,6 +17,8 @@ import (
 	"google.golang.org/protobuf/types/known/emptypb"
 
 	"github.com/ozontech/seq-db/consts"
+	"github.com/ozontech/seq-db/disk"
+	"github.com/ozontech/seq-db/mappingprovider"
 	"github.com/ozontech/seq-db/network/circuitbreaker"
 	pb "github.com/ozontech/seq-db/pkg/storeapi"
 	"github.com/ozontech/seq-db/proxy/bulk"
@@ -48,7 +51,10 @@ type C09Case struct {
 	// request context of the clients' StoreDocuments calls: 0 = none, >0 = deadline after that many
 	// simulated ms (the caller gives up while attempts are under way), <0 = cancelled before the call
 	CtxMs    int     `json:"ctx_ms,omitempty"`
-	PSync    float64 `json:"p_sync"`
+	// ViaIngestor: the payloads are documents handed to the real bulk.Ingestor (processor, pooled compressor), which
+	// calls the client; what a replica accepted is then identified by the documents inside the compressed payload
+	ViaIngestor bool    `json:"via_ingestor,omitempty"`
+	PSync       float64 `json:"p_sync"`
 	Schedule []int   `json:"schedule,omitempty"`
 }
 
@@ -94,6 +100,7 @@ type c09Runner struct {
 	log   []string
 	start time.Time
 	calm  bool // liveness phase: every call succeeds
+	ing   *bulk.Ingestor
 }
 
 func (r *c09Runner) logf(f string, a ...any) {
@@ -110,7 +117,25 @@ func (r *c09Runner) violate(clause, f string, a ...any) {
 	r.logf("VIOLATION %s: %s", clause, fmt.Sprintf(f, a...))
 }
 
-func fingerprint(req *pb.BulkRequest) []byte {
+var payloadMarker = regexp.MustCompile(`"k0":"pay(\d+)"`)
+
+// fingerprint: identity of a payload as a store sees it. Payloads built by the ingestor are identified by the
+// documents they carry (the compressed bytes are the ingestor's business).
+func fingerprint(req *pb.BulkRequest) []byte { return fingerprintOf(req, false) }
+
+func fingerprintOf(req *pb.BulkRequest, compressed bool) []byte {
+	if !compressed {
+	} else if raw, err := disk.DocBlock(req.Docs).DecompressTo(nil); err == nil {
+		if ms := payloadMarker.FindAllSubmatch(raw, -1); len(ms) > 0 {
+			var b bytes.Buffer
+			fmt.Fprintf(&b, "%d|docs", req.Count)
+			for _, m := range ms {
+				b.WriteByte(' ')
+				b.Write(m[1])
+			}
+			return b.Bytes()
+		}
+	}
 	var b bytes.Buffer
 	fmt.Fprintf(&b, "%d|", req.Count)
 	b.Write(req.Docs)
@@ -149,7 +174,7 @@ func (st *stubStore) Bulk(ctx context.Context, in *pb.BulkRequest, _ ...grpc.Cal
 	if sc := r.c.Script[st.host]; n <= len(sc) && !r.calm {
 		o = sc[n-1]
 	}
-	call := bulkCall{host: st.host, n: n, payload: fingerprint(in), kind: o.Kind}
+	call := bulkCall{host: st.host, n: n, payload: fingerprintOf(in, r.ing != nil), kind: o.Kind}
 	r.res.Fired[o.Kind]++
 	d := time.Duration(o.DelayMs) * time.Millisecond
 	var err error
@@ -276,6 +301,15 @@ func (r *c09Runner) script() {
 		SleepWindow:              time.Duration(c.SleepWinMs) * time.Millisecond,
 	}
 	client := bulk.NewSeqDBClient(hot, cold, cfg, clients)
+	if c.ViaIngestor {
+		mp, err := mappingprovider.New("", mappingprovider.WithMapping(c10Mapping))
+		if err != nil {
+			panic(err)
+		}
+		r.ing = bulk.NewIngestor(bulk.IngestorConfig{MaxInflightBulks: 16, AllowedTimeDrift: time.Hour, FutureAllowedTimeDrift: time.Hour,
+			MappingProvider: mp, MaxTokenSize: 72, DocsZSTDCompressLevel: 1, MetasZSTDCompressLevel: 1, MaxDocumentSize: 1 << 20}, client)
+		defer r.ing.Stop()
+	}
 
 	payloadNo := 0
 	var tasks []*verifsim.Task
@@ -327,7 +361,25 @@ func (r *c09Runner) store(client *bulk.SeqDBClient, ci, no, size int, hot, cold 
 			r.res.Fired["request_cancelled"]++
 		}
 	}
-	err := client.StoreDocuments(ctx, no, docs, metas)
+	var err error
+	if r.ing != nil {
+		// two documents carrying the payload number; the ingestor compresses them into its pooled buffers
+		lines := [][]byte{
+			[]byte(fmt.Sprintf(`{"k0":"pay%d","msg":"%s"}`, no, bytes.Repeat([]byte{byte('a' + no%26)}, size%200+1))),
+			[]byte(fmt.Sprintf(`{"k0":"pay%d","msg":"second"}`, no)),
+		}
+		want = []byte(fmt.Sprintf("2|docs %d %d", no, no))
+		i := 0
+		_, err = r.ing.ProcessDocuments(ctx, time.Now(), func() ([]byte, error) {
+			if i >= len(lines) {
+				return nil, nil
+			}
+			i++
+			return lines[i-1], nil
+		})
+	} else {
+		err = client.StoreDocuments(ctx, no, docs, metas)
+	}
 	cancel()
 	r.logf("c%d StoreDocuments #%d -> %v", ci, no, err)
 	_ = before
